@@ -557,11 +557,31 @@ fn main() {
     let n = ck.n(150_000, 6_000_000);
     let nt = table.len() as u16;
     let t2 = table.clone();
+    let names: std::sync::Arc<Vec<String>> = std::sync::Arc::new(table.iter().map(|s| s.ty.to_owned()).collect());
     ck.prop(
         "events",
         n,
         move || {
-            (0..nt, prop::option::weighted(0.06, prop_oneof![Just("org.example.custom".to_owned()), Just("m.room.unknown_future".to_owned()), "[a-z]{1,6}\\.[a-z.]{1,8}", "[a-z./\"\\\\ \u{e9}\u{1F600}\n]{1,8}"]), prop::collection::vec(any::<u8>(), 0..40), 0u8..3, prop::option::weighted(0.25, 1u8..=11), any::<u8>(), any::<u8>(), prop_oneof![Just(0u8), 1u8..16])
+            let names = names.clone();
+            // names that merely look like a known type must take the custom route
+            let near = (any::<u16>(), 0u8..7).prop_map(move |(i, how)| {
+                let t = &names[(i as usize * names.len()) >> 16];
+                let tail = t.rsplit('.').next().unwrap_or(t);
+                if t.starts_with("m.secret_storage.key.") {
+                    // every suffix is within the wildcard type: no near miss exists on this side
+                    return "m.secret_storage.ke".to_owned();
+                }
+                match how {
+                    0 => format!("{t}s"),
+                    1 => tail.to_owned(),
+                    2 => t.to_uppercase(),
+                    3 => format!("m.room.{t}"),
+                    4 => format!("{t}."),
+                    5 => format!(" {t}"),
+                    _ => t.trim_start_matches("m.").to_owned(),
+                }
+            });
+            (0..nt, prop::option::weighted(0.08, prop_oneof![2 => Just("org.example.custom".to_owned()), 2 => Just("m.room.unknown_future".to_owned()), 2 => "[a-z]{1,6}\\.[a-z.]{1,8}", 2 => "[a-z./\"\\\\ \u{e9}\u{1F600}\n]{1,8}", 3 => near]), prop::collection::vec(any::<u8>(), 0..40), 0u8..3, prop::option::weighted(0.25, 1u8..=11), any::<u8>(), any::<u8>(), prop_oneof![Just(0u8), 1u8..16])
                 .prop_map(|(schema, unknown_type, choices, format, redacted_version, unsigned_bits, salt, spelling)| EvCase { schema, unknown_type, choices, format, redacted_version, unsigned_bits, salt, spelling })
         },
         move |c, cx| oracle_with(&t2, c, cx),
